@@ -1,6 +1,6 @@
 (* Properties_C01.v — C01: loading and inspecting arbitrary bytes is memory-safe
    and terminates; no data buffer requested by a load exceeds the input (+1). *)
-From ElfioV Require Import Bytes Mem Stream SectionData Strings Elfio Table Accessors Loader Load_proofs Safety_proofs.
+From ElfioV Require Import Bytes Mem Stream SectionData Strings Elfio Table Accessors Loader Load_proofs Safety_proofs Modinfo_proofs.
 Local Open Scope N_scope.
 
 (* load() on ANY byte string, eager or lazy, from a string or a file stream,
@@ -85,6 +85,24 @@ Theorem C01_note_reader :
     exists el1 r, note_get junk el a index = Ok (el1, r).
 Proof. exact note_get_total. Qed.
 Print Assumptions C01_note_reader.
+
+(* module information: the reader relies on the NUL the loader writes after the
+   section's bytes (C01_loaded_data_is_terminated); with it, it returns for any contents *)
+Theorem C01_modinfo_reader :
+  forall junk content k el sec s0,
+    loaded_ok content k el -> get_sec el sec = Some s0 ->
+    (forall el1 s1 b, sec_data junk el sec = Ok (el1, Some b, s1) -> 0 < sh_size s1 -> terminated b (sh_size s1)) ->
+    exists el1 a, mod_new junk el sec = Ok (el1, a).
+Proof. exact mod_new_total. Qed.
+Print Assumptions C01_modinfo_reader.
+
+Theorem C01_loaded_data_is_terminated :
+  forall junk st0 t s st1 s1 ok al d,
+    fits s -> s_data s = None -> 0 < sh_size s ->
+    sec_load_data junk (Some st0) t s = Ok (st1, s1, ok, al) -> s_data s1 = Some d ->
+    terminated d (sh_size s1).
+Proof. exact loaded_data_terminated. Qed.
+Print Assumptions C01_loaded_data_is_terminated.
 
 (* non-vacuity: a 64-byte header-only image loads; 3 bytes of garbage are refused; both obey the bound *)
 Definition ex_img : bytes :=
